@@ -996,8 +996,26 @@ def np_cos(I, x):
     return x.like(sym.cos_(realish(x.t)))
 
 
-def np_power(I, a, b):
-    return binop(I, ast.Pow, a, b)
+def _where_out(I, opnode, a, b, out, where):
+    """numpy ufunc(a, b, out=o, where=w): result is op(a, b) where w holds, o elsewhere; the operation is only evaluated where w holds"""
+    if where is None:
+        return binop(I, opnode, a, b)
+    w = lift(where)
+    a, b = lift(a), lift(b)
+    ga = SV(a.t, a.pinf, a.ninf, w.t if a.guard is None else z3.And(a.guard, w.t), a.kind)
+    gb = SV(b.t, b.pinf, b.ninf, ga.guard, b.kind)
+    r = binop(I, opnode, ga, gb)
+    o_ = lift(out) if out is not None else SV(I.fresh('uninitialised'))
+    res = ite(I, w.t, SV(r.t, r.pinf, r.ninf), SV(o_.t, o_.pinf, o_.ninf), use_ctx=False)
+    return SV(res.t, res.pinf, res.ninf, a.guard, merge_kind(a, b, w, o_))
+
+
+def np_power(I, a, b, out=None, where=None):
+    return _where_out(I, ast.Pow, a, b, out, where)
+
+
+def np_divide(I, a, b, out=None, where=None):
+    return _where_out(I, ast.Div, a, b, out, where)
 
 
 def np_where(I, c, a=None, b=None):
@@ -1394,12 +1412,23 @@ def newton(I, func=None, x0=None, fprime=None, args=(), tol=None, rtol=None, max
     x = I.fresh('root')
     xs = SV(x, guard=x0.guard, kind=x0.kind)
     extra = list(args) if isinstance(args, (tuple, list)) else list(iterate(I, args))
+    zero_iterate = False
+    if getattr(I, 'newton_split_sign', False):
+        # case split on the sign of the iterate: func / fprime are then evaluated with a known sign (smaller terms);
+        # the iterate 0 is a single point where |.| / where= guards are not differentiable
+        if I.decide(x > 0):
+            pass
+        elif I.decide(x < 0):
+            pass
+        else:
+            zero_iterate = True
     y = I.call(func, [xs] + extra, {})
     y = lift(y)
     if fprime is not None:
         dy = lift(I.call(fprime, [xs] + extra, {}))
-        want = z3.simplify(diff(realish(y.t), x))
-        I.oblige('deriv', 'fprime passed to newton is d func / dx', realish(dy.t) == want)
+        if not zero_iterate:
+            want = z3.simplify(diff(realish(y.t), x))
+            I.oblige('deriv', 'fprime passed to newton is d func / dx', realish(dy.t) == want)
         I.newton_records.append({'x': x, 'f': y.t, 'df': dy.t})
     else:
         I.newton_records.append({'x': x, 'f': y.t, 'df': None})
@@ -1432,6 +1461,8 @@ def b_len(I, x):
 def b_isinstance(I, x, cls):
     def one(c):
         tag = c.tag if isinstance(c, (Opaque, LibType)) else c
+        if isinstance(c, Builtin) and not isinstance(c, LibType) and c.name in ('float', 'int', 'list', 'tuple', 'str', 'dict', 'bool'):
+            tag = c.name
         if tag == 'pd.Series':
             return (isinstance(x, SV) and x.kind == 'series') or (isinstance(x, Rec) and x.kind == 'series')
         if tag == 'pd.DataFrame':
@@ -1685,7 +1716,7 @@ def make_libs(I):
     linalg = LibNS('np.linalg', {'eigvalsh': L(eigvalsh)})
     np_ = LibNS('np', {
         'asarray': L(np_asarray), 'array': L(np_array), 'fabs': L(np_abs), 'abs': L(np_abs), 'absolute': L(np_abs),
-        'sign': L(np_sign), 'power': L(np_power), 'sqrt': L(np_sqrt), 'log10': L(np_log10), 'log': L(np_log),
+        'sign': L(np_sign), 'power': L(np_power), 'divide': L(np_divide), 'sqrt': L(np_sqrt), 'log10': L(np_log10), 'log': L(np_log),
         'exp': L(np_exp), 'cos': L(np_cos), 'where': L(np_where), 'full_like': L(np_full_like),
         'ones_like': Builtin('ones_like', lambda x, **k: np_full_like(I, x, 1.0, dtype=1)),
         'zeros_like': Builtin('zeros_like', lambda x, **k: np_full_like(I, x, 0.0, dtype=1)),
